@@ -1,5 +1,5 @@
-CONSTANTS Tags <- TagsD  Classes <- ClassesT  Bases = {}  VecElems <- NoVecs  Dflt = "dflt"
-          Edges <- EdgesT  PrefPairs <- PrefsT
+CONSTANTS Tags <- TagsD  Classes = {}  Bases = {}  VecElems <- NoVecs  Dflt = "dflt"
+          Edges <- EdgesD  PrefPairs <- PrefsD
           DevOrder = FALSE  DevClassAnc = FALSE  ResetOn <- AllOps  CheckHier = TRUE
 INIT IInit
 NEXT INext
